@@ -44,6 +44,11 @@ def root_pool(name):
     if name == "wide":
         c = E.cst(0x80, W)
         return [a, c, (a ** b), E.mem(a, W)]
+    if name == "subregs":
+        # a register with named sub-registers (as the cpu modules define al/ah/ax)
+        lo = E.slc(a, 0, 4, ref="a_lo")
+        hi = E.slc(a, 4, 4, ref="a_hi")
+        return [a, b, lo, hi]
     if name == "slcsf":
         # a slice whose sign annotation differs from its base register's
         s4 = a[0:4]
@@ -59,7 +64,7 @@ def root_pool(name):
     raise ValueError(name)
 
 
-ROOTS = ["plain", "signed", "shapes", "cmp", "wide", "slcsf"]
+ROOTS = ["plain", "signed", "shapes", "cmp", "wide", "slcsf", "subregs"]
 
 BINOPS = ["+", "-", "*", "&", "|", "^", "<<", ">>", ".>>", "==", "!=", "<.", ">=.", "<", "<=", ">", ">=",
           "**", "/", "%", ">>>", "<<<"]
@@ -187,7 +192,37 @@ def pickle_roundtrip_exp(x):
         raise PickleMismatch("hash differs for %s" % x)
     if bool(getattr(y, "sf", False)) != bool(getattr(x, "sf", False)):
         raise PickleMismatch("sf differs for %s" % x)
+    # registers inside the restored expression must print their sub-registers like the original (named slices)
+    rx, ry = regs_in(x), regs_in(y)
+    for name in rx:
+        if name in ry:
+            for (pos, size) in sorted(getattr(rx[name], "_subrefs", {}) or {}):
+                a, b = str(rx[name][pos:pos + size]), str(ry[name][pos:pos + size])
+                if a != b:
+                    raise PickleMismatch("subregister %s[%d:%d] of the restored register prints %s, original %s" % (name, pos, pos + size, b, a))
     return y
+
+
+def regs_in(e, acc=None, depth=0):
+    """registers reachable in an expression (by name)"""
+    acc = {} if acc is None else acc
+    if depth > 12 or e is None or not hasattr(e, "etype"):
+        return acc
+    k = type(e).__name__
+    if k == "reg":
+        acc.setdefault(e.ref, e)
+        return acc
+    for attr in ("l", "r", "x", "tst", "a", "base"):
+        c = getattr(e, attr, None)
+        if c is not None and hasattr(c, "etype"):
+            regs_in(c, acc, depth + 1)
+    if k == "comp":
+        for p in e.parts.values():
+            regs_in(p, acc, depth + 1)
+    if k in ("vec", "vecw"):
+        for p in e.l:
+            regs_in(p, acc, depth + 1)
+    return acc
 
 
 def pickle_roundtrip_mapper(m):
@@ -354,11 +389,11 @@ def m_ops(reduced=False):
                 ops.append(("wm", size, off, val))
     for rg in MREGS:
         ops.append(("r", rg))
-    ops += [("rm", 8, 0), ("rm", 32, 0), ("rm", 8, 1), ("copy",), ("mcopy",), ("ru", "r"), ("ru", "s"), ("ev", "alias"), ("ev", "store")]
+    ops += [("rm", 8, 0), ("rm", 32, 0), ("rm", 8, 1), ("copy",), ("mcopy",), ("ru", "r"), ("ru", "s"), ("ev", "alias"), ("ev", "store"), ("evc",)]
     return ops
 
 
-OBSERVERS = ("r", "rm", "copy", "mcopy", "ru", "ev")
+OBSERVERS = ("r", "rm", "copy", "mcopy", "ru", "ev", "evc")
 
 
 def m_content(m, E, R, envs):
@@ -449,6 +484,13 @@ def m_run(hist):
                 finally:
                     conf.Cas.noaliasing = old
                 kept.append(("(m >> block) after step %d" % k, res, "mapper", m_snapshot_mapper(res, E, R, envs)))
+            elif op[0] == "evc":
+                # compose the mapper after a concrete state (its symbolic parts become constants in the RESULT only)
+                C = mapper()
+                for nm, val in (("t", 0x0A0B0C0D), ("r", 0x11223344), ("s", 0x55667788), ("p", 0x1000)):
+                    C[R[nm]] = E.cst(val, MW)
+                res = C >> m
+                kept.append(("(concrete >> m) after step %d" % k, res, "mapper", m_snapshot_mapper(res, E, R, envs)))
             elif op[0] == "ru":
                 # read a register and use the result as an operand (simplifying the new expression, slicing the result)
                 x = m[R[op[1]]]
